@@ -988,6 +988,7 @@ def get_circuit_qec_round(connectivity: IRepetitionCodeDescription, registry: Ac
 
     all_indices: List[int] = connectivity.qubit_indices
     current_active_ancilla_indices: List[int] = []
+    pending_closure: bool = False
 
     for sequence_index in range(connectivity.gate_sequence_count):
         # Check if ancilla's need to be 'activated'
@@ -1006,8 +1007,11 @@ def get_circuit_qec_round(connectivity: IRepetitionCodeDescription, registry: Ac
         # Schedule Ancilla basis rotation for 'activation'
         for qubit_index in require_activation:
             result.add(Ry90(qubit_index))
-        if len(require_activation) > 0:
+        # Closing rotations of the previous sequence need to finish before gates or parking operations of this sequence start
+        sequence_follows_closure: bool = pending_closure and (len(sequence_active_gate_indices) > 0 or len(sequence_active_park_indices) > 0)
+        if len(require_activation) > 0 or sequence_follows_closure:
             result.add(Barrier(all_indices))
+            pending_closure = False
 
         # Schedule two-qubit gate
         for index0, index1 in sequence_active_gate_indices:
@@ -1030,6 +1034,7 @@ def get_circuit_qec_round(connectivity: IRepetitionCodeDescription, registry: Ac
         # Schedule Ancilla basis rotation for 'closure'
         for qubit_index in require_closure:
             result.add(Rym90(qubit_index))
+        pending_closure = pending_closure or len(require_closure) > 0
 
     # Ancilla measurement
     result.add(Barrier(all_indices))
@@ -1047,6 +1052,7 @@ def get_circuit_qec_round_with_dynamical_decoupling(connectivity: IRepetitionCod
 
     all_indices: List[int] = connectivity.qubit_indices
     current_active_ancilla_indices: List[int] = []
+    pending_closure: bool = False
 
     for sequence_index in range(connectivity.gate_sequence_count):
         # Check if ancilla's need to be 'activated'
@@ -1065,8 +1071,11 @@ def get_circuit_qec_round_with_dynamical_decoupling(connectivity: IRepetitionCod
         # Schedule Ancilla basis rotation for 'activation'
         for qubit_index in require_activation:
             result.add(Ry90(qubit_index))
-        if len(require_activation) > 0:
+        # Closing rotations of the previous sequence need to finish before gates or parking operations of this sequence start
+        sequence_follows_closure: bool = pending_closure and (len(sequence_active_gate_indices) > 0 or len(sequence_active_park_indices) > 0)
+        if len(require_activation) > 0 or sequence_follows_closure:
             result.add(Barrier(all_indices))
+            pending_closure = False
 
         # Schedule two-qubit gate
         for index0, index1 in sequence_active_gate_indices:
@@ -1089,6 +1098,7 @@ def get_circuit_qec_round_with_dynamical_decoupling(connectivity: IRepetitionCod
         # Schedule Ancilla basis rotation for 'closure'
         for qubit_index in require_closure:
             result.add(Rym90(qubit_index))
+        pending_closure = pending_closure or len(require_closure) > 0
 
     # Ancilla measurement
     result.add(Barrier(all_indices))
